@@ -222,6 +222,14 @@ def check(cx):
         if path_of(t)[-1:] == ['realname']:
             return 'real name'
         return None
+    def deep_atoms_(f):
+        out = []
+        for a in atoms(f):
+            out.append(a)
+            if a[0] == 'any' and isinstance(a[2], tuple):
+                out.extend(deep_atoms_(a[2]))
+        return out
+
     def choices(t):
         """every value the argument can take: the cases of a conditional expression, the members of a literal table the
            call is made for in turn (`[a, b, c].iter().any(|x| match_wildcard(m, x))`)"""
@@ -245,6 +253,17 @@ def check(cx):
             if mr is None or tr is None:
                 r4.violation('%s|roles|%s' % (base_fn(fn), show_term(a[0])[:40]), 'match_wildcard is called with (%s, %s): the first argument must '
                              'be a mask, the second the text it is compared with' % (show_term(a[0])[:50], show_term(a[1])[:50]), loc=cx.loc(e.node))
+    # a match is decided by the matcher alone: it is not skipped because of what the mask looks like ('*' / '?' may stand for any
+    # character, separators included); the only syntactic test in front of it is "has a wildcard at all"
+    for fn, e in census:
+        if e.kind == 'call' and e.data.get('local') and e.data['name'] == 'match_wildcard':
+            m_ = e.data['args'][0]
+            for a in deep_atoms_(e.pc):
+                if a[0] == 'is' and isinstance(a[1], tuple) and a[1][:1] == ('get',) and a[1][1] == m_ and isinstance(a[1][2], tuple) \
+                        and a[1][2][:1] == ('lit',) and a[1][2][1] not in ('*', '?'):
+                    r4.violation('%s|mask-precondition|%s' % (base_fn(fn), a[1][2][1]), 'whether the mask is matched against %s depends on the '
+                                 'mask containing %r: a mask whose wildcards cover that character is not matched' % (
+                                     show_term(e.data['args'][1])[:40], a[1][2][1]), loc=cx.loc(e.node))
     # masks compared with == / contains instead of the matcher
     def deep_atoms(f):
         out = []
